@@ -46,6 +46,11 @@ DEFS = {
    "DESIGN.md 4.6",
    "In-process exit-status emulation (SystemExit code / uncaught exception -> 1) is validated against the real process only in the thorough tier. Dynamic I/O faults rely on the CLI opening files through cli.Path.open / cli.open; state faults do not.",
    "deterministic simulation: fault enumeration (state faults in a scratch file system, interposed I/O errors, trace-based crash points) over in-process CLI runs, final-state + event-log oracle"),
+ "C14": ("exploration",
+   "Seeded search over process histories: sequences of 2-4 (thorough: up to 6) GEN / RENDER operations over 1-3 registry slots in one process, including calls killed by an injected crash at a seeded line event and in-process CLI runs that mutate the process-global default string-type registry; every non-crashing GEN/RENDER must produce byte-identical output to the same call in a pristine forked process after only the GEN of its slot. Nested layout only on tree-shaped graphs, unicode option fixed per slot (the property's own domain). Sampling of histories, not enumeration.",
+   "DESIGN.md 4.3",
+   "Both sides run with insertion-ordered sets, so only state carried through the process can make them differ. Inside the claimed domain the absolute-reference mapping is always empty, so an un-restored reference context is not observable here (C15 covers it).",
+   "deterministic simulation: seeded history machine with trace-based crash injection, differential oracle vs pristine forked process, ddmin of the operation list"),
  "C15": ("exploration",
    "Seeded search over thread interleavings: 1-8 independent pipelines on real threads under a baton scheduler that pre-empts at line (and, in the thread-local context code, opcode) events inside repository frames; every thread's outcome must equal the outcome of the same pipeline alone in a pristine process. A clean batch is evidence over the sampled interleavings, not proof.",
    "DESIGN.md 4.4",
